@@ -193,10 +193,15 @@ def receiver_of(params):
     return ("none", None, False), p
 
 
-def refs_in(ty):
-    """[(lifetime or None for elided, is_mut)] for every reference and every lifetime argument in a type"""
+def refs_in(ty, mut_types=()):
+    """[(lifetime or None for elided, is_mut)] for every reference and every lifetime argument in a type;
+    a lifetime argument of an iterator type whose items are `&mut V` (mut_types) counts as a `&mut`"""
     out = []
     consumed = set()
+    mut_spans = []
+    for t in mut_types:
+        for m in re.finditer(r"\b" + re.escape(t) + r"\s*<", ty):
+            mut_spans.append((m.end() - 1, scan_generics(ty, m.end() - 1)))
     for m in re.finditer(r"&\s*('(\w+)\s*)?(mut\b)?", ty):
         lt = m.group(2)
         if lt == "_":
@@ -208,7 +213,7 @@ def refs_in(ty):
         if m.start() in consumed:
             continue
         lt = m.group(1)
-        out.append((None if lt == "_" else lt, False))
+        out.append((None if lt == "_" else lt, any(a <= m.start() < b for a, b in mut_spans)))
     return out
 
 
@@ -338,6 +343,10 @@ def main():
                 p = os.path.join(d, f)
                 s, m, i, c = parse_file(p, os.path.relpath(p, root))
                 sigs += s; markers += m; items += i; clones += c
+    # second pass: a returned iterator over `&mut V` is a mutable borrow of what it walks
+    mut_types = sorted({i["ty"] for i in items if i["mut_v"]})
+    for sg in sigs:
+        sg["outs"] = [[lt, mu] for lt, mu in refs_in(sg["ret"], mut_types)]
     vis_c = dict(pub="VPub", crate="VCrate", trait_impl="VTraitImpl", trait_decl="VTraitDecl", private="VPrivate")
     recv_c = dict(none="RNone", value="RValue", ref="RRef")
     L = ["(* GENERATED by tools/sig_extract.py from the Rust sources on every run of the C19 check. DO NOT EDIT. *)",
